@@ -8,7 +8,7 @@ from ..runner import new_result
 
 PROPERTY = "C18"
 LEVEL = "model_checking"
-RULE = ("(a) BFS over mixed histories (mutators, outside rewrites that change a position's kind, a second object, buffered "
+RULE = ("(a) BFS over mixed histories (mutators - also storing a synced collection of ANOTHER family as a value -, outside rewrites that change a position's kind, a second object, buffered "
         "contexts for the buffered families); after EVERY history the whole tree is walked by navigation and every container "
         "must be an instance of the root family's dict/list class, and a write through the deepest container must reach the "
         "resource; (b) differential enumeration for the three attribute-access dict classes at depth 0-2: key pool = ordinary "
@@ -36,11 +36,19 @@ def alphabet(ref, task):
         if k == "dict":
             ev += [("op", h, "setitem", ("n", {"p": [1, {"q": {}}]})), ("op", h, "update", ({"a": [{"u": []}]}, {})),
                    ("op", h, "reset", ({"r": {"s": [[{}]]}},)), ("op", h, "setdefault", ("sd", [{"t": 1}])),
-                   ("op", h, "setpath", (("a",), "deep", {"e": [{}]})), ("op", h, "call", ())]
+                   ("op", h, "setpath", (("a",), "deep", {"e": [{}]})), ("op", h, "call", ()),
+                   # a collection of ANOTHER family (bound to its own file) stored as a value: what arrives is a copy of
+                   # its data in the root's family
+                   ("op", h, "setitem", ("f", ("#foreign", {"p": [1, {"q": {}}]}))),
+                   ("op", h, "setdefault", ("fl", ("#foreign", [0, {"z": []}]))),
+                   ("op", h, "update", ({"fu": ("#foreign", {"w": [{}]})}, {}))]
         else:
             ev += [("op", h, "append", ({"p": [1, {"q": {}}]},)), ("op", h, "extend", ([[{"u": []}]],)),
                    ("op", h, "reset", ([{"s": [[{}]]}],)), ("op", h, "insert", (0, [{"t": 1}])),
-                   ("op", h, "setitem", (1, {"e": [{}]})), ("op", h, "call", ())]
+                   ("op", h, "setitem", (1, {"e": [{}]})), ("op", h, "call", ()),
+                   ("op", h, "append", (("#foreign", {"p": [1, {"q": {}}]}),)),
+                   ("op", h, "insert", (0, ("#foreign", [0, {"z": []}]))),
+                   ("op", h, "extend", ([("#foreign", {"w": [{}]})],))]
     disk = ref.disk[0]
     if disk is not ABSENT:
         positions = (("a",), ("a", "b"), ("l", 1), ("k",)) if k == "dict" else ((1,), (1, 1), (2,), (0,))
